@@ -156,6 +156,9 @@ def h_history(threshold: int, qs: List[bool], summaries: List[str], second_kind:
 
 
 # ------------------------------------------------------------------ index == naive on REAL parsed objects
+from xv.harness import C11 as _C11  # noqa: E402
+
+
 def body_real_index(bi, fi):
     """The corpus of C11 `real_corpus` (real iCalendar bodies incl. DATE, floating, UTC and TZID values, real parser,
     real parse_filter): check_from_indexes(get_indexes(keys)) == check on the same object.  Nothing is stubbed, so
@@ -163,16 +166,17 @@ def body_real_index(bi, fi):
     of them)."""
     from xv.core import picks, untraced
     from xv.harness import C11
-    bi, fi = picks((bi, fi), (len(C11.RC_BODIES), len(C11.RC_FILTERS)))
+    bodies, filters, _expect = C11.CORPORA[ctx.PART if ctx.PART is not None else 0]
+    bi, fi = picks((bi, fi), (len(bodies), len(filters)))
     with untraced():
         import datetime as _real
         import logging
-        if C11.RC_FILTERS[fi][1] == "param":
+        if filters[fi][1] == "param":
             if ctx.kf("C10-param-filter-index"):
                 return (True, "known")
         cf = C11._REAL_ICAL.CalendarFilter(_real.timezone.utc)
-        C11._REAL_CALDAV.parse_filter(C11._rc_filter(C11.RC_FILTERS[fi]), cf)
-        fobj = C11._REAL_ICAL.ICalendarFile([C11.RC_BODIES[bi]], "text/calendar")
+        C11._REAL_CALDAV.parse_filter(C11._rc_filter(filters[fi]), cf)
+        fobj = C11._REAL_ICAL.ICalendarFile([bodies[bi]], "text/calendar")
         logging.disable(logging.CRITICAL)
         direct = bool(cf.check("x.ics", fobj))
         keys = []
@@ -186,7 +190,7 @@ def body_real_index(bi, fi):
 
 def h_real_index(bi: int, fi: int) -> bool:
     """
-    pre: 0 <= bi < 9 and 0 <= fi < 10
+    pre: 0 <= bi < len(_C11.CORPORA[ctx.PART][0]) and 0 <= fi < len(_C11.CORPORA[ctx.PART][1])
     post: _
     """
     return run(body_real_index, bi, fi)
@@ -211,7 +215,8 @@ HARNESSES = [
                      "xandikos.icalendar.TextMatcher.match_indexes", "xandikos.icalendar.ComponentTimeRangeMatcher.match_indexes",
                      "xandikos.icalendar.PropertyTimeRangeMatcher.match_indexes", "xandikos.icalendar.ICalendarFile._get_index",
                      "xandikos.store.File.get_indexes", "xandikos.icalendar.create_subindexes"]),
-    Harness("real_index", h_real_index, body_real_index, classes=["hit", "miss"], budget={"quick": 45, "thorough": 90},
+    Harness("real_index", h_real_index, body_real_index, classes=[("hit", 0), ("miss", 1)], parts={"quick": [0, 1]},
+            budget={"quick": 45, "thorough": 90},
             describe="check_from_indexes(get_indexes(keys)) == check for 9 real iCalendar bodies x 10 filters through the real "
                      "parser and the real filter compiler (DATE, floating, UTC, TZID values; nothing stubbed); exhaustive "
                      "over the corpus",
